@@ -2,7 +2,7 @@ import GormModel.Drv.Util
 import GormModel.Drv.C02
 import GormModel.Gen.GuardWhereFacts
 import GormModel.Model.Scopes
-import GormModel.Model.UpdateKeys
+import GormModel.Model.UpdateKeysGuard
 import GormModel.Model.GuardMode
 import GormModel.Model.AssocGuard
 open Lean
